@@ -127,6 +127,28 @@ mod native_inst {
     ninst!(r_drain_extract_n16 = ob_drain_extract<16>);
     ninst!(r_drain_extract_n32 = ob_drain_extract<32>);
     ninst!(r_drain_extract_n64 = ob_drain_extract<64>);
+    ninst!(r_life_n4 = ob_life<4>);
+    ninst!(r_life_n8 = ob_life<8>);
+    ninst!(r_life_n16 = ob_life<16>);
+    ninst!(r_life_n32 = ob_life<32>);
+    ninst!(r_life_n64 = ob_life<64>);
+    ninst!(r_no_alloc_n4 = ob_no_alloc<4>);
+    ninst!(r_no_alloc_n8 = ob_no_alloc<8>);
+    ninst!(r_no_alloc_n16 = ob_no_alloc<16>);
+    ninst!(r_no_alloc_n32 = ob_no_alloc<32>);
+    ninst!(r_no_alloc_n64 = ob_no_alloc<64>);
+    ninst!(r_try_reserve_n4 = ob_try_reserve<4>);
+    ninst!(r_try_reserve_n8 = ob_try_reserve<8>);
+    ninst!(r_try_reserve_n16 = ob_try_reserve<16>);
+    ninst!(r_try_reserve_n32 = ob_try_reserve<32>);
+    ninst!(r_try_reserve_n64 = ob_try_reserve<64>);
+    ninst!(r_clone_eq_n4_m8 = ob_clone_eq<4, 8>);
+    ninst!(r_clone_eq_n8_m4 = ob_clone_eq<8, 4>);
+    ninst!(r_clone_eq_n8_m8 = ob_clone_eq<8, 8>);
+    ninst!(r_clone_eq_n16_m32 = ob_clone_eq<16, 32>);
+    ninst!(r_clone_eq_n32_m8 = ob_clone_eq<32, 8>);
+    ninst!(r_clone_eq_n32_m32 = ob_clone_eq<32, 32>);
+    ninst!(r_clone_eq_n64_m16 = ob_clone_eq<64, 16>);
     ninst!(r_map_lookup_n4 = ob_map_lookup<4>);
     ninst!(r_map_lookup_n8 = ob_map_lookup<8>);
     ninst!(r_map_lookup_n16 = ob_map_lookup<16>);
@@ -195,6 +217,28 @@ harnesses! {
     #[kani::unwind(18)] h_iter_n16,
     }
     native {
+        r_life_n4,
+        r_life_n8,
+        r_life_n16,
+        r_life_n32,
+        r_life_n64,
+        r_no_alloc_n4,
+        r_no_alloc_n8,
+        r_no_alloc_n16,
+        r_no_alloc_n32,
+        r_no_alloc_n64,
+        r_try_reserve_n4,
+        r_try_reserve_n8,
+        r_try_reserve_n16,
+        r_try_reserve_n32,
+        r_try_reserve_n64,
+        r_clone_eq_n4_m8,
+        r_clone_eq_n8_m4,
+        r_clone_eq_n8_m8,
+        r_clone_eq_n16_m32,
+        r_clone_eq_n32_m8,
+        r_clone_eq_n32_m32,
+        r_clone_eq_n64_m16,
         r_set_algebra_n4,
         r_set_algebra_n8,
         r_set_algebra_n16,
